@@ -49,7 +49,7 @@ def parse_type(node):
         if node.id == "ArrayMap":
             return (
                 "tup",
-                [("arr", "i8", 2), ("arr", "f8", 1), ("int",), ("int",), ("int",), ("int",)],
+                [("arr", "i8", 2), ("arr", "xfloat", 1), ("int",), ("int",), ("int",), ("int",)],
             )
         raise TypeErr("unknown type name %s" % node.id)
     if isinstance(node, ast.Subscript):
